@@ -126,8 +126,10 @@ def run(rep: Report, prog: Program, tier: str) -> None:
     for p in E.paths(fi):
         if p.exit[0] != "return":
             continue
-        on_hint = any(a == ("cmp", "is", hint, ("const", None)) and not pol for a, pol, _ in p.conds) and any(a[0] == "pure" and a[1] == "math.isfinite" and a[2] == (hint,) and pol for a, pol, _ in p.conds)
-        if not on_hint:
+        # the hint edge = every path that is compatible with `a finite hint is present`: it is left only by the
+        # literals `hint is None` / `not isfinite(hint)`.  (A truthiness test of the hint does not exclude 0.0.)
+        excluded = any(a == ("cmp", "is", hint, ("const", None)) and pol for a, pol, _ in p.conds) or any(a[0] == "pure" and a[1] == "math.isfinite" and a[2] == (hint,) and not pol for a, pol, _ in p.conds)
+        if excluded:
             continue
         # a finite hint plus a bounded draw is finite: the `not isfinite(delay)` branch is infeasible here
         if any(a[0] == "pure" and a[1] == "math.isfinite" and a[2] != (hint,) and contains(a[2][0], hint) and not pol for a, pol, _ in p.conds):
